@@ -16,12 +16,18 @@ TRUSTED_COMMON = [
     "modelled, not verified: unicode/utf8 (Utf8.v, validated against the real package), Go slice/range semantics, "
     "strings/bytes helpers called by the library",
 ]
+TRUSTED_EXTRA = {
+    "C13": ["translator tools/asm2prog.py (T2: Plan-9 amd64 assembly -> instruction lists, regenerated every run)",
+            "modelled, not verified: the x86-64 instruction semantics of coq/theories/X86.v (registers < 2^64 with wrap = Fault, "
+            "flags known/undefined, 32-lane vector registers, page-granular readable memory around the argument, single result "
+            "store), validated on every run against the real kernels (x86_model_validation)"],
+}
 
 # per-property: level, how decided
 META = {p: {"level": "proof"} for p in PROPS}
 META["C05"]["level"] = "other"
 META["C18"]["level"] = "other"
-META["C13"]["level"] = "other"
+META["C13"]["level"] = "proof"
 META["C14"]["level"] = "other"
 
 
@@ -423,7 +429,7 @@ def check_property(pid, tier, seed):
         "obligations": inv["obligations"],
         "discharged": inv["obligations"] if proofs_ok else 0,
         "checker_cmd": "make -C /verif/coq (coq_makefile; coqc 8.16.1, full .vo build) ; theorems in " + inv["file"],
-        "trusted_base": TRUSTED_COMMON + ["Print Assumptions: " + (" ".join(assumptions_txt.split())[:1500] or "n/a")],
+        "trusted_base": TRUSTED_COMMON + TRUSTED_EXTRA.get(pid, []) + ["Print Assumptions: " + (" ".join(assumptions_txt.split())[:1500] or "n/a")],
         "theorems": inv["theorems"],
         "proofs_checked": proofs_ok,
         **supporting_theorems(pid),
